@@ -36,14 +36,14 @@ func init() {
 			"a field carrying both an alias tag and a format-specific tag is outside the statement and not generated",
 			"alias tags are put on leaves (not on struct-typed fields)",
 		},
-		MinDistinct: map[string]int{"quick": 3000, "thorough": 60000},
+		MinDistinct: map[string]int{"quick": 8000, "thorough": 1000000},
 		MinCounters: map[string]map[string]int64{
 			"quick":    {"aliased_leaves_judged": 12000, "pattern_neither": 2000, "pattern_primary": 2000, "pattern_alias": 2000, "both_set_errors_checked": 1500},
 			"thorough": {"aliased_leaves_judged": 300000},
 		},
 		Plan: func(tier string) fw.Plan {
 			if tier == "thorough" {
-				return fw.Plan{Shards: 16, CasesPerShard: 12000, TimeoutSec: 3000}
+				return fw.Plan{Shards: 96, CasesPerShard: 30000, Parallel: 16, TimeoutSec: 3000}
 			}
 			return fw.Plan{Shards: 16, CasesPerShard: 1200, TimeoutSec: 600}
 		},
